@@ -219,6 +219,15 @@ func buildQueries(o *Obligation, en []*Term, expectSat bool) []*query {
 	var out []*query
 	for _, g := range goals {
 		q := &query{o: o, goal: g}
+		if !expectSat && hasQuant(g, map[int]bool{}) {
+			// an existential goal: its negation is a universal hypothesis to be instantiated too
+			ng := Not(g)
+			both := groundInstances(And(o.PC, ng), []*Term{g})
+			q.as0 = append(append([]*Term{}, en...), both)
+			q.as = append(append([]*Term{}, en...), o.PC, ng)
+			out = append(out, q)
+			continue
+		}
 		if !expectSat && weak != nil && weak != o.PC {
 			// quantified hypotheses and a goal over merged states: prove it case by case
 			if sub := retryByGuards(q, en); sub != nil {
@@ -386,7 +395,7 @@ func raceQuery(q *query, tier string, fast bool) solveResult {
 		limit = 180
 	}
 	if fast {
-		limit = 8
+		limit = 2
 	}
 	ctx, cancel := context.WithCancel(context.Background())
 	defer cancel()
@@ -638,11 +647,55 @@ func decomposeGoal(g *Term, depth int) []*Term {
 	case g.op == "forall" && !g.bound:
 		return decomposeGoal(skolemize(g), depth+1)
 	case g.op == "=>":
+		ante := skolemizeExists(g.args[0])
 		var out []*Term
 		for _, c := range decomposeGoal(g.args[1], depth+1) {
-			out = append(out, Implies(g.args[0], c))
+			out = append(out, Implies(ante, c))
 		}
 		return out
+	case g.op == "=" && g.args[0].sort == SBool && (hasQuant(g.args[0], map[int]bool{}) || hasQuant(g.args[1], map[int]bool{})):
+		// an equivalence with a quantified side: prove both directions
+		var out []*Term
+		out = append(out, decomposeGoal(Implies(g.args[0], g.args[1]), depth+1)...)
+		out = append(out, decomposeGoal(Implies(g.args[1], g.args[0]), depth+1)...)
+		return out
+	case g.op == "not" && g.args[0].op == "exists" && !g.args[0].bound:
+		// not exists x. P  ==  forall x. not P
+		q := g.args[0]
+		return decomposeGoal(Forall(q.qvars, Not(q.args[0])), depth+1)
+	case g.op == "not" && g.args[0].op == "and":
+		// not (A and B and exists..) : as an implication A and B ==> not (exists ..)
+		as := g.args[0].args
+		for i, a := range as {
+			if a.op == "exists" && !a.bound {
+				rest := append(append([]*Term{}, as[:i]...), as[i+1:]...)
+				return decomposeGoal(Implies(And(rest...), Not(a)), depth+1)
+			}
+		}
 	}
 	return []*Term{g}
+}
+
+// skolemizeExists replaces top-level existential conjuncts of an antecedent by fresh witnesses.
+func skolemizeExists(a *Term) *Term {
+	one := func(t *Term) *Term {
+		if t.op == "exists" && !t.bound {
+			m := map[int]*Term{}
+			skMu.Lock()
+			for _, v := range t.qvars {
+				m[v.id] = Fresh("sk$"+v.name, v.sort)
+			}
+			skMu.Unlock()
+			return Subst(t.args[0], m)
+		}
+		return t
+	}
+	if a.op == "and" {
+		out := make([]*Term, len(a.args))
+		for i, x := range a.args {
+			out[i] = one(x)
+		}
+		return And(out...)
+	}
+	return one(a)
 }
